@@ -87,6 +87,17 @@ def plan(tier, seed):
     return sh
 
 
+def prepare_replay(shard):
+    """Scratch registries are removed after a run: rebuild the configuration of this shard."""
+    if shard.get("config") is None:
+        return shard
+    files = synthetic_bank_files(env.rng("C12cfg", shard["config"]))
+    root = scenario.make_scratch({f"bank_registry/{n_}": c for n_, c in files.items()}, drop_all=["bank_registry"])
+    shard["_env"] = {"SCHWIFTY_REPO": root}
+    shard["_scratch"] = root
+    return shard
+
+
 def build_iban_around(cc, key, table, rng):
     spec = table.get(cc)
     if spec is None:
